@@ -83,22 +83,32 @@ def _canon_of_literal(text):
 
 
 class NormStr(str):
-    """Normalised source text of an AST node. Prints / slices / searches like the plain text; *equality* (==, `in` a
-    tuple or list) is decided on the order-insensitive canonical form (set / dict lookups use the plain text), so a rule that expects
-    `a + b` also accepts `b + a`, `x > 0` also `0 < x`, `i += 1` also `i = i + 1`."""
+    """Normalised source text of an AST node. Prints / slices / searches / hashes like the plain text; *equality* (==,
+    `in` a tuple or list) is decided on the order-insensitive canonical form (computed lazily, only when the plain
+    texts differ), so a rule that expects `a + b` also accepts `b + a`, `x > 0` also `0 < x`, `i += 1` also `i = i + 1`."""
 
-    __slots__ = ("canon",)
+    __slots__ = ("_node", "_canon")
 
-    def __new__(cls, text, canon=None):
+    def __new__(cls, text, node=None):
         o = super().__new__(cls, text)
-        o.canon = canon if canon is not None else text
+        o._node = node
+        o._canon = None
         return o
 
+    @property
+    def canon(self):
+        if self._canon is None:
+            c = _canon_text(self._node) if self._node is not None else None
+            self._canon = c if c is not None else str(self)
+        return self._canon
+
     def __eq__(self, other):
-        if isinstance(other, NormStr):
-            return self.canon == other.canon
         if isinstance(other, str):
-            return str.__eq__(self, other) or self.canon == _canon_of_literal(other)
+            if str.__eq__(self, other):
+                return True
+            if isinstance(other, NormStr):
+                return self.canon == other.canon
+            return self.canon == _canon_of_literal(other)
         return NotImplemented
 
     def __ne__(self, other):
@@ -116,8 +126,7 @@ def norm(node):
         return "None"
     if isinstance(node, list):
         return "; ".join(norm(n) for n in node)
-    text = " ".join(ast.unparse(node).split())
-    return NormStr(text, _canon_text(node) or text)
+    return NormStr(" ".join(ast.unparse(node).split()), node)
 
 
 def dotted(node):
